@@ -72,18 +72,21 @@ let line_of_triple tyf errf fmtf (m, rest) =
 let fmt_g t p = x_format_g t p
 let fmt_t t p = x_format_t t p
 
+let ukey i = List.map (fun c -> byte_of_int (Char.code c)) (let s = [| "buildTag"; "X-Y.z_1"; "bad key" |].(i) in List.init (String.length s) (String.get s))
 let rec nat_of_int i = if i <= 0 then O else S (nat_of_int (i - 1))
 let qops s =
   List.map (fun o -> match String.split_on_char ':' o with
     | ["i"; k; v] -> QIns (unhex k, unhex v) | ["r"; k] -> QRem (unhex k) | ["g"; k] -> QGet (unhex k)
     | ["m"; k; v] -> QGetMut (unhex k, unhex v) | ["c"; k] -> QHas (unhex k) | ["x"; k] -> QIdx (unhex k)
-    | ["X"; k; v] -> QIdxSet (unhex k, unhex v) | ["C"] -> QClear | ["t"] -> QRetNE | ["T"; k] -> QRetKeyNe (unhex k)
+    | ["X"; k; v] -> QIdxSet (unhex k, unhex v) | ["C"] -> QClear | ["wc"; _] -> QClear | ["re"; _] | ["rv"; _] -> QIterMut [] | ["t"] -> QRetNE | ["T"; k] -> QRetKeyNe (unhex k)
     | ["M"; s] -> QRetMut (unhex s) | ["I"; s] | ["J"; s] -> QIterMut (unhex s)
     | ["eo"; k; v] -> QEOrIns (unhex k, unhex v) | ["ew"; k; v] -> QEOrInsWith (unhex k, unhex v)
     | ["em"; k; s; v] -> QEAndMod (unhex k, unhex s, unhex v) | ["ei"; k; v] -> QEInsert (unhex k, unhex v)
     | ["er"; k] -> QERemove (unhex k) | ["eR"; k] -> QERemoveEntry (unhex k) | ["eG"; k; s] -> QEGetMut (unhex k, unhex s)
     | ["l"] -> QLen | ["tr"; u] -> QTRepo (unhex u) | ["tg"] -> QTGet | ["tc"] -> QTHas | ["td"] -> QTDel
     | ["tC"; c] -> QTCs (csops c) | ["tG"] -> QTCsGet | ["ke"; s] -> QKeyCmp (unhex s)
+    | ["tu"; i; v] -> (match i with "0" -> QTUIns (ukey 0, unhex v) | "1" -> QTUIns (ukey 1, unhex v) | _ -> QTUIns (ukey 2, unhex v))
+    | ["tug"; i] -> QGet (ukey (int_of_string i)) | ["tud"; i] -> QTUDel (ukey (int_of_string i))
     | ["tk"; i; v] -> QTKIns (nat_of_int (int_of_string i), unhex v) | ["tkg"; i] -> QTKGet (nat_of_int (int_of_string i)) | ["tkd"; i] -> QTKDel (nat_of_int (int_of_string i))
     | _ -> failwith ("qop " ^ o)) (split ',' s)
 let ord_s = function Lt -> "lt" | Eq -> "eq" | Gt -> "gt"
@@ -149,6 +152,10 @@ let run_line line =
      | Err e -> Printf.sprintf "%s|%s|E %s" (h p.p_ns) (h p.p_name) (pkerr e)
      | Ok ((p', cn), (ns2, name2)) ->
        Printf.sprintf "%s|%s|%s|%s|%s|%s|%s" (h p.p_ns) (h p.p_name) (h p'.p_ns) (h p'.p_name) (h cn) (h ns2) (h name2))
+  | ["M"; s] ->
+    (match x_comb_purl (unhex s) with
+     | Err e -> "E " ^ pkerr e
+     | Ok (((t, p), cn), (ns2, name2)) -> Printf.sprintf "%s|%s|%s|%s|%s|%s" (h (x_pt_name t)) (h p.p_ns) (h p.p_name) (h cn) (h ns2) (h name2))
   | "H" :: fam :: rest ->
     let (c, r, hk) = fam_params fam in
     let res = match rest with
